@@ -275,6 +275,27 @@ CLAIMED = {
    technique="Lean 4 proof (mutual structural induction over statement trees) + differential correspondence on the moved-import set + execution of the result"),
 }
 
+
+# --- additions of the session of 2026-09-30 (Model/FuncDef: one function, all its decoded traces) ---
+CLAIMED["C01"]["text"] += (
+    " For whole functions - any number of decoded traces with any argument names, Model/FuncDef.lean = shrink_traced_types + "
+    "get_updated_definition - definition_arg_sound, definition_yield_sound, definition_return_sound: the annotation of a traced, "
+    "unannotated (or overridden) non-receiver parameter / of the yield / return position admits every value that was a tight member "
+    "of the type recorded for it in ANY of the traces (under whatever limits they were recorded), and definition_untraced_param: a "
+    "parameter no trace mentions gets nothing; tied to the real functions by corr.C01.shrinkTraced / corr.C01.definition.")
+CLAIMED["C12"]["text"] += (
+    " For whole functions (Model/FuncDef.lean): decorator_matches_kind, decorator_injective, head_lines (`async` exactly for coroutine "
+    "functions, on the def line), receiver_kinds, definition_mirrors_signature (same parameter names in the same order, kind and async "
+    "kept) and receiver_never_traced (the receiver never gets a traced type, whatever the traces say about self / cls); "
+    "FunctionKind.from_callable / has_self / the decorator line are tied by corr.C12.kind.")
+CLAIMED["C13"]["text"] += (
+    " The whole-function composition (shrink_traced_types, rewriter, update_signature_args / _return) is Model/FuncDef.updatedDefinition, "
+    "compared with the real get_updated_definition on random trace lists (corr.C13.shrinkTraced, corr.C13.definition).")
+CLAIMED["C14"]["text"] += (
+    " For the traces of one function (Model/FuncDef.shrinkTraced = shrink_traced_types): traced_types_depend_on_the_set - two trace "
+    "lists with the same members give, for every parameter name and for the return and yield positions, both nothing or == types "
+    "(tied by corr.C14.shrinkTraced).")
+
 NOT_YET = "check not built yet (build in progress; see DESIGN.md section 10)"
 
 def main():
